@@ -291,8 +291,15 @@ pub fn guarded<T>(f: impl FnOnce() -> T) -> Outcome<T> {
     }
 }
 
+thread_local! { pub static LAST_PANIC: std::cell::RefCell<String> = std::cell::RefCell::new(String::new()); }
+
+/// Panics are data (caught by `guarded`): nothing is printed, but the last message and location are kept so that a panic
+/// outside a guarded section can be reported by the entry point.
 pub fn quiet_panics() {
-    std::panic::set_hook(Box::new(|_| {}));
+    std::panic::set_hook(Box::new(|info| {
+        let msg = info.to_string();
+        LAST_PANIC.with(|l| *l.borrow_mut() = msg);
+    }));
 }
 
 // ------------------------------------------------------------------ interpreter helpers
